@@ -6,6 +6,7 @@ import (
 	"io"
 	"runtime/debug"
 	"strings"
+	"time"
 
 	"github.com/flanglet/kanzi-go/v2/internal/simhook"
 )
@@ -40,6 +41,7 @@ type TaskInfo struct {
 	arrived  bool
 	reply    chan cmd
 	children int
+	waitWG   any // the WaitGroup this task waits for (tsJoin), nil = waits for its children
 	seen     int32
 	want     int32
 	idle     bool // spinner that has re-loaded an unchanged value since the last non-spin event
@@ -83,6 +85,9 @@ const (
 	mNote
 	mQuery
 	mDone
+	mWGAdd
+	mWGDone
+	mWGWait
 )
 
 type msg struct {
@@ -99,10 +104,10 @@ type msg struct {
 type IOKind uint8
 
 const (
-	IOOk    IOKind = iota // serve the call (sources: at most N bytes if N > 0)
-	IOErr                 // return (0, Err); nothing stored / delivered
-	IOTorn                // sink: store N < len bytes, return (N, Err); source: deliver N bytes together with Err
-	IOEOF                 // source: report io.EOF now (truncation)
+	IOOk   IOKind = iota // serve the call (sources: at most N bytes if N > 0)
+	IOErr                // return (0, Err); nothing stored / delivered
+	IOTorn               // sink: store N < len bytes, return (N, Err); source: deliver N bytes together with Err
+	IOEOF                // source: report io.EOF now (truncation)
 )
 
 // IOAction is the decision for one sink/source call.
@@ -183,15 +188,19 @@ type Sched struct {
 	msgs chan msg
 	done chan struct{}
 
-	tasks  []*TaskInfo
-	byKey  map[any][]*TaskInfo // tasks by spawn key (several anonymous tasks may share one key)
-	cur    *TaskInfo
-	live   int
-	policy Policy
-	pctCh  []int
-	victim int
-	last   int
-	stick  int
+	tasks []*TaskInfo
+	byKey map[any][]*TaskInfo // tasks by spawn key (several anonymous tasks may share one key)
+	wgs   map[any]int         // WaitGroup counters as seen through the hooks
+	// set when the root has finished while other tasks were still unwinding (aborted runs)
+	rootDone   chan cmd
+	rootDoneAt time.Time
+	cur        *TaskInfo
+	live       int
+	policy     Policy
+	pctCh      []int
+	victim     int
+	last       int
+	stick      int
 
 	aborting bool
 	ioCount  map[string]int
@@ -227,7 +236,7 @@ func Run(tape *Tape, opts Options, body func(env *Env)) *Sched {
 	}
 
 	s := &Sched{Tape: tape, opts: opts, msgs: make(chan msg), done: make(chan struct{}),
-		byKey: map[any][]*TaskInfo{}, ioCount: map[string]int{}, Faults: map[string]int{}, Probes: map[string]int{}}
+		byKey: map[any][]*TaskInfo{}, wgs: map[any]int{}, ioCount: map[string]int{}, Faults: map[string]int{}, Probes: map[string]int{}}
 	root := &TaskInfo{Idx: 0, Parent: -1, st: tsRunning, arrived: true}
 	s.tasks = append(s.tasks, root)
 	s.cur = root
@@ -251,7 +260,7 @@ func Run(tape *Tape, opts Options, body func(env *Env)) *Sched {
 		s.victim = 1 + tape.Intn(8)
 	}
 
-	simhook.H = s
+	simhook.SetHandler(s)
 	go s.loop()
 
 	func() {
@@ -266,7 +275,7 @@ func Run(tape *Tape, opts Options, body func(env *Env)) *Sched {
 
 	s.call(msg{kind: mDone})
 	<-s.done
-	simhook.H = nil
+	simhook.SetHandler(nil)
 	return s
 }
 
@@ -278,7 +287,7 @@ func Attach(tape *Tape, opts Options, onTick func(s *Sched, t *TaskInfo, ev *Eve
 		opts.MaxEvents = 50000000
 	}
 	s := &Sched{Tape: tape, opts: opts, msgs: make(chan msg), done: make(chan struct{}),
-		byKey: map[any][]*TaskInfo{}, ioCount: map[string]int{}, Faults: map[string]int{}, Probes: map[string]int{}}
+		byKey: map[any][]*TaskInfo{}, wgs: map[any]int{}, ioCount: map[string]int{}, Faults: map[string]int{}, Probes: map[string]int{}}
 	root := &TaskInfo{Idx: 0, Parent: -1, st: tsRunning, arrived: true}
 	s.tasks = append(s.tasks, root)
 	s.cur = root
@@ -299,7 +308,7 @@ func Attach(tape *Tape, opts Options, onTick func(s *Sched, t *TaskInfo, ev *Eve
 	case PolStarve:
 		s.victim = 1 + tape.Intn(8)
 	}
-	simhook.H = s
+	simhook.SetHandler(s)
 	go s.loop()
 	return s
 }
@@ -326,6 +335,12 @@ func (s *Sched) Exit(key any) { s.call(msg{kind: mExit, key: key}) }
 
 // Join implements simhook.Handler.
 func (s *Sched) Join() { s.call(msg{kind: mJoin}) }
+
+// WGAdd, WGDone, WGWait implement simhook.Handler: the WaitGroup operations of the
+// library, in the order the code performs them. Add and Done are not yield points.
+func (s *Sched) WGAdd(w any, n int) { s.call(msg{kind: mWGAdd, key: w, a: int64(n)}) }
+func (s *Sched) WGDone(w any)       { s.call(msg{kind: mWGDone, key: w}) }
+func (s *Sched) WGWait(w any)       { s.call(msg{kind: mWGWait, key: w}) }
 
 // Point implements simhook.Handler.
 func (s *Sched) Point(name string, arg int) {
@@ -441,7 +456,7 @@ func (e *Env) Join() { e.S.Join() }
 
 // IO is the yield point of a simulated sink/source call.
 func (s *Sched) IO(obj, op string, n int) IOAction {
-	if s == nil || simhook.H != simhook.Handler(s) {
+	if s == nil || simhook.Current() != simhook.Handler(s) {
 		return IOAction{}
 	}
 	return s.call(msg{kind: mIO, name: op, text: obj, a: int64(n)}).io
@@ -493,7 +508,19 @@ func (s *Sched) loop() {
 	}()
 
 	for {
-		m := <-s.msgs
+		var m msg
+		if s.rootDone != nil {
+			// tear down after the root has finished: bounded in real time (a task stuck for real
+			// inside the library is the business of the CPU watchdog, not of this loop)
+			select {
+			case m = <-s.msgs:
+			case <-time.After(time.Until(s.rootDoneAt.Add(20 * time.Second))):
+				s.rootDone <- cmd{}
+				return
+			}
+		} else {
+			m = <-s.msgs
+		}
 
 		if m.kind == mStart {
 			t := s.pendingStart(m.key)
@@ -516,6 +543,13 @@ func (s *Sched) loop() {
 			case mSpin:
 				m.reply <- cmd{kind: cmdAbort}
 			case mDone:
+				if s.live > 1 {
+					// tasks are still unwinding: the scheduler outlives the root until each of them
+					// has made its last hook call (a later simulation must never hear from them)
+					s.rootDone = m.reply
+					s.rootDoneAt = time.Now()
+					continue
+				}
 				m.reply <- cmd{}
 				return
 			case mExit:
@@ -527,6 +561,10 @@ func (s *Sched) loop() {
 					}
 				}
 				m.reply <- cmd{}
+				if s.rootDone != nil && s.live <= 1 {
+					s.rootDone <- cmd{}
+					return
+				}
 			case mDraw:
 				m.reply <- cmd{val: s.Tape.Intn(int(m.a))}
 			case mQuery:
@@ -548,8 +586,11 @@ func (s *Sched) loop() {
 
 		if m.kind == mDone {
 			if s.live != 1 {
-				s.violate("task-leak", fmt.Sprintf("%d tasks still alive when the root finished", s.live-1))
+				s.violate("task-leak", fmt.Sprintf("%d tasks still running when the root (the caller of the library) finished: a call returned before its block tasks had ended", s.live-1))
 				s.abortAll()
+				s.rootDone = m.reply
+				s.rootDoneAt = time.Now()
+				continue
 			}
 			m.reply <- cmd{}
 			return
@@ -645,8 +686,28 @@ func (s *Sched) handle(m msg) bool {
 	case mJoin:
 		t.reply = m.reply
 		t.st = tsJoin
+		t.waitWG = nil
 		t.point = "join"
 		s.event(t, "join", int64(t.children), 0)
+		s.cur = nil
+	case mWGAdd:
+		s.wgs[m.key] += int(m.a)
+		m.reply <- cmd{}
+		return false
+	case mWGDone:
+		s.wgs[m.key]--
+		s.event(t, "wg.done", int64(s.wgs[m.key]), 0)
+		if s.wgs[m.key] < 0 {
+			s.violate("waitgroup-negative", fmt.Sprintf("task %d: WaitGroup counter below zero", t.Idx))
+		}
+		m.reply <- cmd{}
+		return false
+	case mWGWait:
+		t.reply = m.reply
+		t.st = tsJoin
+		t.waitWG = m.key
+		t.point = "wg.wait"
+		s.event(t, "wg.wait", int64(s.wgs[m.key]), 0)
 		s.cur = nil
 	case mPoint:
 		t.reply = m.reply
@@ -772,7 +833,7 @@ func (s *Sched) runnable() []*TaskInfo {
 				rs = append(rs, t)
 			}
 		case tsJoin:
-			if t.children == 0 {
+			if (t.waitWG == nil && t.children == 0) || (t.waitWG != nil && s.wgs[t.waitWG] <= 0) {
 				rs = append(rs, t)
 			}
 		}
